@@ -19,7 +19,7 @@ type wireSite struct {
 	Role  string // "dst" or "src" for the buffer operand this site describes
 	Root  ssa.Value
 	Lo    linExpr
-	Hi    *linExpr // nil: open (to the end of the root window)
+	Hi    *linExpr  // nil: open (to the end of the root window)
 	Val   ssa.Value // value written (Put*, store) / value produced (Uint*, load) / the other operand (copy, xor)
 	Width int64
 }
